@@ -1,5 +1,5 @@
 (* Byte-level unambiguity of the hash input formats (DESIGN 3.2, item (b)).
-   [ShaInst.encG] is the byte layout of what the Go code feeds to SHA-256 (its Uint63 instance [ShaInst.enc] is tied
+   [Layout.encG] is the byte layout of what the Go code feeds to SHA-256 (its Uint63 instance [ShaInst.enc] is tied
    to the code by every correspondence run that compares a root hash).  Here: on well-formed inputs (32-byte digests,
    fixed-length values, positions of a fixed key length, heights below 2^16, indexes below 2^64, partial nodes above
    the leaves) two inputs with the same bytes are the same input.  Hence a failure of the injectivity premise [H_inj]
@@ -7,7 +7,7 @@
    (explicitly exhibited).  Generic in the byte type: the only fact used about bytes is that the 256 byte values are
    distinct ([byte_inj]); Base/EncInt.v proves it for the Uint63 bytes the executable instance uses. *)
 From Coq Require Import ZArith Lia List.
-From QV Require Import Base.Util Base.HashSig Base.ShaInst.
+From QV Require Import Base.Util Base.HashSig Base.Layout.
 Import ListNotations.
 Open Scope N_scope.
 
